@@ -32,7 +32,7 @@ for sid in ids:
     finally:
         subprocess.run(["git", "-C", "/repo", "checkout", "--", "."])
         subprocess.run(["git", "-C", "/verif", "checkout", "--", "evidence"])
-    got = "detected" if any("exit=1" in o for o in outcome) else "missed"
+    got = "detected" if any("exit=1" in o for o in outcome) else ("undecided" if any("exit=2" in o for o in outcome) else "missed")
     flag = "OK" if got == expect else "CHANGED"
     line = f"{sid} expect={expect} got={got} {flag} " + " ".join(outcome)
     print(line, flush=True); lines.append(line)
